@@ -25,6 +25,7 @@ CONSTANTS Starts, Spans, StepsOut,   \* parameter grids of iter(start, start+spa
           DateLists,                 \* explicit date lists
           H,                         \* internal step of the numerical propagator (ticks)
           ELo, EHi, EN,              \* ephemeris table: nodes ELo, ELo+EN, ..., EHi
+          Tolerant,                  \* explore Ephem.iter(strict=False) as well (forward ranges)
           EExtra,                    \* ... plus these ticks (a table that is NOT uniformly sampled: two successive steps, an
                                      \* event recorded between two samples); {} for a uniform table
           Order,                     \* Lagrange order of ephemerides (8)
@@ -85,6 +86,19 @@ EphDates(a, b, s) ==
   ELSE IF s < 0 THEN (IF a <= b THEN Raise ELSE <<>>)
   ELSE IterFrom(a, b, s, TRUE)                         \* while date <= stop (no direction handling)
 
+(* Ephem.iter(strict=False): "If False, it will take the closest point in each case" - the request is clipped to the table.      *)
+(* Contract: the dates of the range from max(start, first node) to min(stop, last node); nothing when they do not intersect.     *)
+Max2(x, y) == IF x > y THEN x ELSE y
+Min2(x, y) == IF x < y THEN x ELSE y
+ExpEphTol(a, b, s) ==
+  LET lo == Max2(a, ELo) hi == Min2(b, EHi) IN
+  IF lo > hi THEN <<>> ELSE IF s = 0 THEN NodesFrom(ELo, lo, hi) ELSE Iter(lo, hi, s, TRUE)
+\* implementation-shaped: real_start / stop replaced by the table's ends, then the same two loops
+EphDatesTol(a, b, s) ==
+  LET start == IF a < ELo THEN ELo ELSE a
+      stop  == IF b > EHi THEN EHi ELSE b
+  IN IF s = 0 THEN NodesFrom(ELo, start, stop) ELSE IterFrom(start, stop, s, TRUE)
+
 -----------------------------------------------------------------------------
 Init ==
   /\ calls = <<>> /\ bound = 0
@@ -106,6 +120,15 @@ CallIter(o, a, span, s) ==
   /\ eph' = EphDates(a, a + span, Dir(a, a + span, s))
   /\ expeph' = ExpEphIter(a, a + span, s)
 
+CallIterTolerant(o, a, span, s) ==
+  /\ Tolerant /\ span >= 0
+  /\ calls' = Append(calls, [op |-> "iter-tolerant", o |-> o, a |-> a, b |-> a + span, s |-> s, dates |-> <<>>])
+  /\ bound' = o
+  /\ expected' = ExpIter(a, a + span, IF s = 0 THEN H ELSE s)      \* (only ephemerides have a tolerant mode)
+  /\ kn' = <<>>
+  /\ eph' = EphDatesTol(a, a + span, s)
+  /\ expeph' = ExpEphTol(a, a + span, s)
+
 CallIterDates(o, ds) ==
   /\ calls' = Append(calls, [op |-> "dates", o |-> o, a |-> 0, b |-> 0, s |-> 0, dates |-> ds])
   /\ bound' = o
@@ -118,7 +141,7 @@ Next ==
   /\ Len(calls) < MaxCalls
   /\ \E o \in Orbits :
        \/ \E t \in PropTimes : CallPropagate(o, t)
-       \/ \E a \in Starts, sp \in Spans, s \in StepsOut : CallIter(o, a, sp, s)
+       \/ \E a \in Starts, sp \in Spans, s \in StepsOut : CallIter(o, a, sp, s) \/ CallIterTolerant(o, a, sp, s)
        \/ \E ds \in DateLists : CallIterDates(o, ds)
 
 Spec == Init /\ [][Next]_vars
@@ -128,7 +151,7 @@ Spec == Init /\ [][Next]_vars
 ContractShape ==
   calls # <<>> =>
     LET c == calls[Len(calls)] IN
-      c.op = "iter" =>
+      c.op \in {"iter", "iter-tolerant"} =>
         /\ expected # <<>> /\ expected[1] = c.a
         /\ \A i \in 1..Len(expected) : IF c.b >= c.a THEN expected[i] <= c.b ELSE expected[i] >= c.b
         /\ \A i \in 1..(Len(expected) - 1) : expected[i + 1] - expected[i] = Dir(c.a, c.b, IF c.s = 0 THEN H ELSE c.s)
